@@ -134,3 +134,10 @@ pub mod header_extension;
 pub mod label;
 mod pkt_type;
 pub mod utils;
+
+/// Verification hooks (cargo feature `verif-hooks`, off by default): lets an external
+/// harness crate name the packet-kind enum that appears in public signatures.
+#[cfg(feature = "verif-hooks")]
+pub mod verif_hooks {
+    pub use crate::pkt_type::PktType;
+}
